@@ -165,7 +165,7 @@ spec:
             r.is_some() ==> final(self).prev_spec() == r.unwrap(),
             suffix(old(self).rem(), final(self).rem()),
             r.is_some() ==> old(self).rem().len() > 0 && r.unwrap() == old(self).rem()[0] && final(self).rem() == old(self).rem().drop_first() && final(self).fuel() < old(self).fuel(),
-before `let c = self.chars.next()?;`:
+enter:
         proof { assert(self.rem().skip(0) =~= self.rem()); assert(self.rem().len() > 0 ==> self.rem().skip(1) =~= self.rem().drop_first()); }
 @*/
 
@@ -180,7 +180,7 @@ spec:
             forall|i: int| 0 <= i < old(self).rem().len() - final(self).rem().len() ==> predicate.ensures((#[trigger] old(self).rem()[i],), true),
             final(self).rem().len() > 0 ==> predicate.ensures((final(self).rem()[0],), false),
             final(self).rem().len() == old(self).rem().len() ==> final(self).prev_spec() == old(self).prev_spec(),
-before `while predicate(`:
+enter:
         proof { assert(self.rem().skip(0) =~= self.rem()); }
         let ghost p0 = predicate;
 loop 0:
